@@ -9,6 +9,7 @@ use std::panic::{catch_unwind, AssertUnwindSafe};
 
 /// Install a panic hook that prints nothing (subject panics are observations).
 pub fn silence_panics() {
+    if std::env::var("VERIF_DEBUG_PANIC").is_ok() { return; }
     std::panic::set_hook(Box::new(|_| {}));
 }
 
